@@ -1315,3 +1315,259 @@ func ruleOmitemptyNilVsEmpty(r *Report, rule, pkgRel string, typeNames ...string
 		undecidedf("omitempty nil-vs-empty rule matched %d nil tests", n)
 	}
 }
+
+// ruleScratchResetBeforeVisit: a function that builds a per-item callback C
+// together with a value visitor D sharing scratch variables (slices the visitor
+// appends to, flags it sets) must reset every such variable in C on every path
+// before C hands D to the visiting call: the reset statement dominates the
+// call that receives D.  (A reset placed after the use is skipped by early
+// returns, and a missing reset leaks the previous item's values.)
+func ruleScratchResetBeforeVisit(r *Report, rule string, pkgs ...string) {
+	p := r.P
+	n := 0
+	for _, pk := range pkgs {
+		for _, fi := range p.funcsInPkg(pk) {
+			if fi.Decl.Body == nil {
+				continue
+			}
+			info := fi.Pkg.TypesInfo
+			// visitor closures bound to a local: name := func(...) {...}
+			visitors := map[types.Object]*ast.FuncLit{}
+			ast.Inspect(fi.Decl.Body, func(x ast.Node) bool {
+				as, ok := x.(*ast.AssignStmt)
+				if !ok || len(as.Lhs) != 1 || len(as.Rhs) != 1 {
+					return true
+				}
+				if fl, ok := as.Rhs[0].(*ast.FuncLit); ok {
+					if o := objOf(info, as.Lhs[0]); o != nil {
+						visitors[o] = fl
+					}
+				}
+				return true
+			})
+			if len(visitors) == 0 {
+				continue
+			}
+			for vobj, D := range visitors {
+				// scratch written by D: outer locals appended to or assigned a constant
+				scratch := map[types.Object]string{}
+				ast.Inspect(D.Body, func(x ast.Node) bool {
+					as, ok := x.(*ast.AssignStmt)
+					if !ok {
+						return true
+					}
+					for i, l := range as.Lhs {
+						o := objOf(info, l)
+						if o == nil || !(o.Pos() < D.Pos() || o.Pos() > D.End()) || o.Pos() < fi.Decl.Body.Pos() {
+							continue
+						}
+						if i < len(as.Rhs) {
+							if c, ok := as.Rhs[i].(*ast.CallExpr); ok && calleeBuiltin(info, c) == "append" && len(c.Args) > 0 && objOf(info, c.Args[0]) == o {
+								scratch[o] = "slice"
+							} else if tv, ok := info.Types[as.Rhs[i]]; ok && tv.Value != nil && isBoolType(o.Type()) {
+								scratch[o] = "flag"
+							}
+						}
+					}
+					return true
+				})
+				if len(scratch) == 0 {
+					continue
+				}
+				// per-item callbacks: other closures that pass D to a call
+				ast.Inspect(fi.Decl.Body, func(x ast.Node) bool {
+					C, ok := x.(*ast.FuncLit)
+					if !ok || C == D {
+						return true
+					}
+					var visitCall *ast.CallExpr
+					for _, c := range callsIn(C.Body) {
+						for _, a := range c.Args {
+							if objOf(info, a) == vobj {
+								visitCall = c
+							}
+						}
+					}
+					if visitCall == nil {
+						return true
+					}
+					g := buildCFG(info, C.Body)
+					for s, kind := range scratch {
+						// only scratch that C itself reads
+						if !readsVar(info, C.Body, s) {
+							continue
+						}
+						n++
+						r.Fn(fi)
+						reset := false
+						inspectNoLit(C.Body, func(y ast.Node) bool {
+							as, ok := y.(*ast.AssignStmt)
+							if !ok {
+								return true
+							}
+							for i, l := range as.Lhs {
+								if objOf(info, l) != s || i >= len(as.Rhs) {
+									continue
+								}
+								rhs := ast.Unparen(as.Rhs[i])
+								isReset := false
+								switch kind {
+								case "slice":
+									if se, ok := rhs.(*ast.SliceExpr); ok && objOf(info, se.X) == s && se.High != nil {
+										if k, isC := intConst(info, se.High); isC && k == 0 {
+											isReset = true
+										}
+									}
+									if isNilIdent(info, rhs) {
+										isReset = true
+									}
+								case "flag":
+									if tv, ok := info.Types[rhs]; ok && tv.Value != nil {
+										isReset = true
+									}
+								}
+								if isReset && g.DominatesNode(as, visitCall) {
+									reset = true
+								}
+							}
+							return true
+						})
+						r.Ob(rule, fi.Name+"/"+s.Name()+"-reset-before-"+exprShort(visitCall.Fun), visitCall.Pos(), reset,
+							"scratch variable "+s.Name()+" is filled by the visitor "+vobj.Name()+" and read by the per-item callback; it must be reset on every path before the callback hands the visitor to "+exprShort(visitCall.Fun)+" (a reset after the use is skipped by early returns; without it values of the previous item leak into this one's verdict)")
+					}
+					return true
+				})
+			}
+		}
+	}
+	if n < 4 {
+		undecidedf("scratch-reset rule matched %d scratch variables", n)
+	}
+}
+
+func isBoolType(t types.Type) bool {
+	b, ok := t.Underlying().(*types.Basic)
+	return ok && b.Kind() == types.Bool
+}
+
+// axisOf: the coordinate axis an identifier names by the repository's naming
+// convention (camel-case word lon/lng/longitude/x vs lat/latitude/y).
+func axisOf(name string) string {
+	var words []string
+	cur := ""
+	for i, ch := range name {
+		if i > 0 && ch >= 'A' && ch <= 'Z' && cur != "" && !(cur[len(cur)-1] >= 'A' && cur[len(cur)-1] <= 'Z') {
+			words = append(words, cur)
+			cur = ""
+		}
+		if ch == '_' || (ch >= '0' && ch <= '9') {
+			if cur != "" {
+				words = append(words, cur)
+				cur = ""
+			}
+			continue
+		}
+		cur += string(ch)
+	}
+	if cur != "" {
+		words = append(words, cur)
+	}
+	ax := ""
+	for _, w := range words {
+		lw := strings.TrimSuffix(strings.ToLower(w), "s")
+		switch lw {
+		case "lon", "lng", "longitude", "x":
+			if ax == "lat" {
+				return "" // names both: no single axis
+			}
+			ax = "lon"
+		case "lat", "latitude", "y":
+			if ax == "lon" {
+				return ""
+			}
+			ax = "lat"
+		}
+	}
+	return ax
+}
+
+func axisOfExpr(e ast.Expr) (string, string) {
+	e = ast.Unparen(e)
+	switch x := e.(type) {
+	case *ast.Ident:
+		return axisOf(x.Name), x.Name
+	case *ast.SelectorExpr:
+		return axisOf(x.Sel.Name), exprStr(x)
+	case *ast.IndexExpr:
+		return axisOfExpr(x.X)
+	case *ast.StarExpr:
+		return axisOfExpr(x.X)
+	case *ast.UnaryExpr:
+		return axisOfExpr(x.X)
+	}
+	return "", ""
+}
+
+// ruleAxisDiscipline: longitudes are only compared with longitudes and passed
+// for longitude parameters (same for latitudes), judged by the naming
+// convention the geo code follows throughout (…Lon/…Lat, …X/…Y).
+func ruleAxisDiscipline(r *Report, rule string, pkgs ...string) {
+	p := r.P
+	n := 0
+	for _, pk := range pkgs {
+		for _, fi := range p.funcsInPkg(pk) {
+			if fi.Decl.Body == nil {
+				continue
+			}
+			info := fi.Pkg.TypesInfo
+			cmpN, argN := 0, 0
+			ast.Inspect(fi.Decl.Body, func(x ast.Node) bool {
+				switch s := x.(type) {
+				case *ast.BinaryExpr:
+					switch s.Op {
+					case token.LSS, token.LEQ, token.GTR, token.GEQ, token.EQL, token.NEQ:
+					default:
+						return true
+					}
+					ax, nx := axisOfExpr(s.X)
+					ay, ny := axisOfExpr(s.Y)
+					if ax == "" || ay == "" {
+						return true
+					}
+					n++
+					cmpN++
+					r.Fn(fi)
+					r.Ob(rule, fi.Name+"/compare-"+nx+"~"+ny, s.Pos(), ax == ay, "comparison `"+exprStr(s)+"` relates a "+ax+" value ("+nx+") to a "+ay+" value ("+ny+"): coordinates of different axes are never comparable (a rectangle test with one mixed-up edge accepts or rejects points by the wrong coordinate)")
+				case *ast.CallExpr:
+					f := callee(info, s)
+					if f == nil || f.Pkg() == nil || !strings.HasPrefix(f.Pkg().Path(), blevePath) {
+						return true
+					}
+					sig, ok := f.Type().(*types.Signature)
+					if !ok {
+						return true
+					}
+					for i, a := range s.Args {
+						if i >= sig.Params().Len() {
+							break
+						}
+						pa := axisOf(sig.Params().At(i).Name())
+						aa, an := axisOfExpr(a)
+						if pa == "" || aa == "" {
+							continue
+						}
+						n++
+						argN++
+						r.Fn(fi)
+						r.Ob(rule, fi.Name+"/arg-"+an+"->"+f.Name()+"."+sig.Params().At(i).Name(), a.Pos(), pa == aa, "argument "+an+" ("+aa+") is passed for parameter "+sig.Params().At(i).Name()+" ("+pa+") of "+f.Name()+": longitude and latitude are swapped at this call")
+					}
+				}
+				return true
+			})
+			_, _ = cmpN, argN
+		}
+	}
+	if n < 20 {
+		undecidedf("axis rule matched %d comparisons/arguments", n)
+	}
+}
